@@ -148,6 +148,8 @@ inductive Err where
   | nestedNative             -- 'Cell may not contain nested "{@" templates.'
   deriving DecidableEq, Repr
 
+deriving instance DecidableEq for Except
+
 /-- what the caller gets: text, a native Python value, or — silently — an `Undefined` object -/
 inductive Out where
   | text (s : Str)
